@@ -4,10 +4,11 @@ import Mathlib.Analysis.Convex.SpecificFunctions.Basic
 import Mathlib.Tactic
 
 /-
-Feasibility evidence for /verif/DESIGN.md (design phase).  NOT part of the framework:
-the framework re-states this over the model's own definitions.  Checks with
-  lean MMAscent_prototype.lean
-against the pre-installed Mathlib; expected axioms: propext, Classical.choice, Quot.sound.
+Feasibility evidence for /verif/DESIGN.md (design phase).  NOT part of the framework.
+Part 1 (namespace MM): abstract masked MM/Jensen ascent lemma.
+Part 2 (namespace C01): its instantiation on the paper-form, masked out-membership
+update of the directed general model: `C01.uStep_ascent`.
+Checks with `lean UStepAscent_prototype.lean`; expected axioms: propext, Classical.choice, Quot.sound.
 -/
 open Finset Real
 set_option linter.unusedSectionVars false
@@ -188,4 +189,102 @@ theorem ascent : F a c d x ≤ F a c d (upd a c d m x) := by
 
 end
 end MM
-#print axioms MM.ascent
+
+
+set_option linter.unusedSectionVars false
+
+namespace C01
+variable {V G Lr : Type} [Fintype V] [Fintype G] [Fintype Lr] [DecidableEq V] [DecidableEq G] [DecidableEq Lr]
+variable (u v : V → G → ℝ) (w : G → G → Lr → ℝ) (A : Lr → V → V → ℕ)
+
+def Mr (a : Lr) (i j : V) : ℝ := ∑ k, ∑ q, u i k * v j q * w k q a
+def Z (k : G) : ℝ := ∑ q, (∑ a, w k q a) * (∑ j, v j q)
+
+noncomputable def LL : ℝ := ∑ a, ∑ i, ∑ j, ((A a i j : ℝ) * Real.log (Mr u v w a i j) - Mr u v w a i j)
+
+/-- paper-form masked u-update (no snap; guards are in the mask and in the hypotheses) -/
+noncomputable def uStep (m : V → G → Prop) [∀ i k, Decidable (m i k)] (i : V) (k : G) : ℝ :=
+  if m i k then u i k / Z v w k * ∑ a, ∑ j, (A a i j : ℝ) * ((∑ q, v j q * w k q a) / Mr u v w a i j)
+  else u i k
+
+-- MM instance
+def cE (e : Lr × V × V) (p : V × G) : ℝ := if p.1 = e.2.1 then ∑ q, v e.2.2 q * w p.2 q e.1 else 0
+def xP (p : V × G) : ℝ := u p.1 p.2
+def aE (e : Lr × V × V) : ℝ := (A e.1 e.2.1 e.2.2 : ℝ)
+def dP (p : V × G) : ℝ := Z v w p.2
+
+lemma S_eq (e : Lr × V × V) : MM.S (cE v w) (xP u) e = Mr u v w e.1 e.2.1 e.2.2 := by
+  obtain ⟨a, i, j⟩ := e
+  simp only [MM.S, cE, xP, Mr, Fintype.sum_prod_type]
+  simp only [mul_ite, mul_zero]
+  rw [sum_comm]
+  apply sum_congr rfl; intro k _
+  rw [sum_ite_eq' univ i]; simp only [mem_univ, if_true]
+  rw [mul_sum]; apply sum_congr rfl; intro q _; ring
+
+lemma pen_eq : ∑ p, xP u p * dP v w p = ∑ a, ∑ i, ∑ j, Mr u v w a i j := by
+  simp only [xP, dP, Z, Mr, Fintype.sum_prod_type]
+  -- LHS: Σ_i Σ_k u i k * Σ_q (Σ_a w k q a) * (Σ_j v j q)
+  symm
+  calc ∑ a, ∑ i, ∑ j, ∑ k, ∑ q, u i k * v j q * w k q a
+      = ∑ i, ∑ a, ∑ j, ∑ k, ∑ q, u i k * v j q * w k q a := sum_comm
+    _ = ∑ i, ∑ k, ∑ q, ∑ a, ∑ j, u i k * v j q * w k q a := by
+        apply sum_congr rfl; intro i _
+        calc ∑ a, ∑ j, ∑ k, ∑ q, u i k * v j q * w k q a
+            = ∑ a, ∑ k, ∑ j, ∑ q, u i k * v j q * w k q a := sum_congr rfl fun a _ => sum_comm
+          _ = ∑ k, ∑ a, ∑ j, ∑ q, u i k * v j q * w k q a := sum_comm
+          _ = ∑ k, ∑ a, ∑ q, ∑ j, u i k * v j q * w k q a :=
+              sum_congr rfl fun k _ => sum_congr rfl fun a _ => sum_comm
+          _ = ∑ k, ∑ q, ∑ a, ∑ j, u i k * v j q * w k q a := sum_congr rfl fun k _ => sum_comm
+    _ = _ := by
+        apply sum_congr rfl; intro i _; apply sum_congr rfl; intro k _
+        rw [mul_sum]; apply sum_congr rfl; intro q _
+        rw [sum_mul_sum, mul_sum]; apply sum_congr rfl; intro a _
+        rw [mul_sum]; apply sum_congr rfl; intro j _; ring
+
+lemma F_eq (x : V → G → ℝ) :
+    MM.F (aE A) (cE v w) (dP v w) (xP x) = LL x v w A := by
+  unfold MM.F LL
+  rw [pen_eq]
+  simp only [Fintype.sum_prod_type, S_eq, aE]
+  simp only [sum_sub_distrib]
+
+lemma upd_eq (m : V → G → Prop) [∀ i k, Decidable (m i k)] (p : V × G) :
+    MM.upd (aE A) (cE v w) (dP v w) (fun p => m p.1 p.2) (xP u) p = uStep u v w A m p.1 p.2 := by
+  obtain ⟨i, k⟩ := p
+  simp only [MM.upd, uStep, xP, dP]
+  split_ifs with h
+  · congr 1
+    simp only [Fintype.sum_prod_type, S_eq, aE, cE]
+    apply sum_congr rfl; intro a _
+    -- Σ_{i'} Σ_j A a i' j * (if i = i' then .. else 0) / Mr a i' j
+    rw [sum_eq_single i]
+    · apply sum_congr rfl; intro j _; simp [mul_div_assoc]
+    · intro i' _ hne; apply sum_eq_zero; intro j _; simp [Ne.symm hne]
+    · intro h; exact absurd (mem_univ i) h
+  · rfl
+
+theorem uStep_ascent (m : V → G → Prop) [∀ i k, Decidable (m i k)]
+    (hu : ∀ i k, 0 ≤ u i k) (hv : ∀ j q, 0 ≤ v j q) (hw : ∀ k q a, 0 ≤ w k q a)
+    (hZ : ∀ i k, m i k → 0 < Z v w k)
+    (hR : ∀ a i j, 0 < A a i j → 0 < Mr u v w a i j) :
+    LL u v w A ≤ LL (uStep u v w A m) v w A := by
+  have h := MM.ascent (aE A) (cE v w) (dP v w) (fun p : V × G => m p.1 p.2) (xP u)
+    (fun e => by simp [aE])
+    (fun e p => by
+      simp only [cE]; split_ifs
+      · exact sum_nonneg fun q _ => mul_nonneg (hv _ _) (hw _ _ _)
+      · exact le_rfl)
+    (fun p => hu _ _)
+    (fun p hp => hZ p.1 p.2 hp)
+    (fun e he => by
+      rw [S_eq]; apply hR; simpa [aE] using he)
+  rw [F_eq] at h
+  have h2 : MM.upd (aE A) (cE v w) (dP v w) (fun p : V × G => m p.1 p.2) (xP u)
+      = xP (uStep u v w A m) := by
+    funext p; rw [upd_eq]; rfl
+  rw [h2, F_eq] at h
+  exact h
+
+end C01
+#print axioms C01.uStep_ascent
